@@ -23,6 +23,7 @@ package main
 import (
 	"bytes"
 	"fmt"
+	"regexp"
 	"go/ast"
 	"go/token"
 	"go/types"
@@ -30,14 +31,34 @@ import (
 	"strings"
 )
 
+// lockSpec / fieldSpec: how a lock or tracked field is FOUND in the struct declaration — by its TYPE, so that renaming
+// a private field changes nothing.  [canon] is the role name printed in the generated skeleton.  When several fields
+// have a matching type, the one called [canon] is taken if there is one, else the nth (declaration order).
+type lockSpec struct {
+	canon string
+	kind  string // "RWMutex" | "Mutex"  (held by value or by pointer)
+	nth   int
+}
+
+type fieldSpec struct {
+	canon string
+	typ   string // regular expression on the printed field type (types.ExprString), or "@localstruct": a pointer to a
+	//               struct declared in the file that no other spec of the target matches
+	nth    int
+	object []string // non-nil: pointer to an object WITHOUT own synchronisation (exploration only); its read-only methods
+}
+
 type ftarget struct {
 	file     string
 	typeName string
-	locks    []string            // fields of typeName of type (*)sync.Mutex or (*)sync.RWMutex
-	fields   []string            // tracked fields
-	objects  map[string][]string // exploration only: pointer fields to objects WITHOUT own synchronisation -> their read-only methods
+	lockSpecs  []lockSpec
+	fieldSpecs []fieldSpec
 	defName  string
 	comment  string
+	// filled in by resolve(): Go field name -> role name
+	locks   map[string]string
+	fields  map[string]string
+	objects map[string][]string
 }
 
 type fgroup struct {
@@ -45,26 +66,33 @@ type fgroup struct {
 	targets []ftarget
 }
 
-var cacheFields = []string{"partitions", "valuePartitionIndex", "currentPartitionId", "maxPartitions", "partitionCapacity", "config"}
-
 var fgroups = []fgroup{
 	{"CacheSkeleton_gen.v", []ftarget{{
 		file: "storage/fifoMapCache.go", typeName: "FifoMapCache",
-		locks: []string{"currentPartitionMux", "sweepingMux"}, fields: cacheFields,
+		lockSpecs: []lockSpec{{"currentPartitionMux", "RWMutex", 0}, {"sweepingMux", "Mutex", 0}},
+		fieldSpecs: []fieldSpec{
+			{canon: "partitions", typ: `^\*GenericStack\[`},
+			{canon: "valuePartitionIndex", typ: `^\*SafeMap\[`},
+			{canon: "currentPartitionId", typ: `^uint64$`},
+			{canon: "partitionCapacity", typ: `^int$`, nth: 0},
+			{canon: "maxPartitions", typ: `^int$`, nth: 1},
+			{canon: "config", typ: "@localstruct"},
+		},
 		defName: "cache_skeleton",
-		comment: "FifoMapCache: fields partitions, valuePartitionIndex, currentPartitionId, maxPartitions, partitionCapacity, config;\n   locks currentPartitionMux (RWMutex), sweepingMux (Mutex).  Calls into GenericStack / SafeMap are reads of the field.",
+		comment: "FifoMapCache: fields partitions, valuePartitionIndex, currentPartitionId, maxPartitions, partitionCapacity, config;\n   locks currentPartitionMux (RWMutex), sweepingMux (Mutex) — role names; the Go fields are found by type.\n   Calls into GenericStack / SafeMap are reads of the field.  One entry per exported method; private helpers are inlined.",
 	}}},
 	{"WQSkeleton_gen.v", []ftarget{{
 		file: "workqueue/queue.go", typeName: "Queue",
-		locks: []string{"errSubScriberMux"}, fields: []string{"errorSubscribers"},
-		defName: "wq_err_skeleton",
-		comment: "Queue.errorSubscribers under errSubScriberMux (property C14).",
+		lockSpecs:  []lockSpec{{"errSubScriberMux", "Mutex", 0}},
+		fieldSpecs: []fieldSpec{{canon: "errorSubscribers", typ: `^\[\]chan error$`}},
+		defName:    "wq_err_skeleton",
+		comment:    "Queue: the slice of error-subscriber channels ([]chan error, role name errorSubscribers) under the Queue's\n   sync.Mutex (role name errSubScriberMux) — property C14.",
 	}, {
 		file: "workqueue/queue.go", typeName: "Queue",
-		locks: []string{"errSubScriberMux"}, fields: []string{"breaked", "workQueue"},
-		objects: map[string][]string{"workQueue": {"Len"}},
-		defName: "wq_shared_skeleton",
-		comment: "EXPLORATION ONLY (no property depends on it): the plain bool Queue.breaked and the heap object behind\n   Queue.workQueue, which has no synchronisation of its own (every method call except Len counts as a write).",
+		lockSpecs: []lockSpec{{"errSubScriberMux", "Mutex", 0}},
+		fieldSpecs: []fieldSpec{{canon: "breaked", typ: `^bool$`}, {canon: "workQueue", typ: `^\*workHeap$`, object: []string{"Len"}}},
+		defName:   "wq_shared_skeleton",
+		comment:   "EXPLORATION ONLY (no property depends on it): the plain bool of Queue (Break's flag) and the heap object behind\n   the *workHeap field, which has no synchronisation of its own (every method call except Len counts as a write).",
 	}}},
 }
 
@@ -115,16 +143,21 @@ type fval struct {
 	name string
 }
 
+// spawn: a goroutine started by an analysed entry: a closure (lit) or an unexported method/function (fd); it becomes a
+// skeleton entry "<entry>.go<k>" of its own, analysed with no lock held
 type spawn struct {
-	name string
-	lit  *ast.FuncLit
-	recv []types.Object
+	name  string
+	lit   *ast.FuncLit
+	fd    *ast.FuncDecl
+	recv  []types.Object // objects denoting the receiver inside a closure
+	depth int
 }
 
+// shared by all entries of one target
 type spawnSet struct {
-	seen  map[*ast.FuncLit]bool
-	list  []spawn
-	names map[*ast.FuncLit]string // Go-style closure names, computed per FuncDecl
+	list    []spawn
+	reached map[*ast.FuncDecl]bool // unexported methods/functions analysed in place or as a goroutine somewhere
+	funcs   map[string]*ast.FuncDecl // top-level functions of the file (no receiver) by name
 }
 
 type fan struct {
@@ -145,6 +178,10 @@ type fan struct {
 	labels map[string][]fheld
 	nlock  int // number of lock events so far
 	sp     *spawnSet
+	name   string             // name of the entry being analysed
+	nspawn int                // goroutines started by it so far
+	sites  map[ast.Node]bool  // go statements already turned into a spawn (a site inside a loop counts once)
+	sdepth int                // nesting of goroutines
 }
 
 func (a *fan) fail(pos token.Pos, format string, args ...interface{}) {
@@ -155,62 +192,125 @@ func (a *fan) fail(pos token.Pos, format string, args ...interface{}) {
 // validation of the target table against the declarations
 // ---------------------------------------------------------------------------------------------
 
-func (fc *fileCtx) validateFields(t ftarget) (map[string]bool, map[string]fieldKind, error) {
+type namedField struct {
+	name string
+	typ  ast.Expr
+}
+
+func structFields(st *ast.StructType) []namedField {
+	var r []namedField
+	for _, f := range st.Fields.List {
+		for _, n := range f.Names {
+			r = append(r, namedField{n.Name, f.Type})
+		}
+	}
+	return r
+}
+
+// pick: the field among the candidates that a spec denotes
+func pick(cands []string, canon string, nth int) (string, bool) {
+	if len(cands) == 1 {
+		return cands[0], true
+	}
+	for _, c := range cands {
+		if c == canon {
+			return c, true
+		}
+	}
+	if nth < len(cands) && len(cands) > 0 {
+		return cands[nth], true
+	}
+	return "", false
+}
+
+// resolve finds the locks and tracked fields of the target by type and fills t.locks / t.fields / t.objects.
+// Returns lock name -> is RWMutex, field name -> kind.
+func (fc *fileCtx) resolve(t *ftarget) (map[string]bool, map[string]fieldKind, error) {
 	st := fc.structs[t.typeName]
 	if st == nil {
 		return nil, nil, fmt.Errorf("struct type %s not declared", t.typeName)
 	}
+	fs := structFields(st)
+	t.locks, t.fields, t.objects = map[string]string{}, map[string]string{}, map[string][]string{}
 	lockRW := map[string]bool{}
-	for _, l := range t.locks {
-		lt := structField(st, l)
-		if lt == nil {
-			return nil, nil, fmt.Errorf("%s has no field %s", t.typeName, l)
+	for _, ls := range t.lockSpecs {
+		var cands []string
+		for _, f := range fs {
+			if fc.syncKind(f.typ) == ls.kind {
+				cands = append(cands, f.name)
+			}
 		}
-		if se, ok := lt.(*ast.StarExpr); ok {
-			lt = se.X
+		name, ok := pick(cands, ls.canon, ls.nth)
+		if !ok {
+			return nil, nil, fmt.Errorf("%s has no field of type sync.%s for the lock %s", t.typeName, ls.kind, ls.canon)
 		}
-		sel, ok := lt.(*ast.SelectorExpr)
-		pk, ok2 := ast.Expr(nil), false
-		if ok {
-			pk, ok2 = sel.X, true
+		if _, dup := t.locks[name]; dup {
+			return nil, nil, fmt.Errorf("%s.%s is matched by two lock specifications", t.typeName, name)
 		}
-		id, ok3 := pk.(*ast.Ident)
-		if !ok || !ok2 || !ok3 || fc.imports[id.Name] != "sync" || (sel.Sel.Name != "RWMutex" && sel.Sel.Name != "Mutex") {
-			return nil, nil, fmt.Errorf("%s.%s is neither sync.Mutex nor sync.RWMutex", t.typeName, l)
-		}
-		lockRW[l] = sel.Sel.Name == "RWMutex"
+		t.locks[name] = ls.canon
+		lockRW[name] = ls.kind == "RWMutex"
 	}
 	kinds := map[string]fieldKind{}
-	for _, f := range t.fields {
-		ft := structField(st, f)
-		if ft == nil {
-			return nil, nil, fmt.Errorf("%s has no field %s", t.typeName, f)
+	matched := map[string]bool{}
+	var res []*regexp.Regexp
+	for _, sp := range t.fieldSpecs {
+		if sp.typ != "@localstruct" {
+			res = append(res, regexp.MustCompile(sp.typ))
 		}
-		if _, isLock := lockRW[f]; isLock {
-			return nil, nil, fmt.Errorf("%s.%s is listed as lock and as field", t.typeName, f)
-		}
-		if _, obj := t.objects[f]; obj {
-			if _, ptr := ft.(*ast.StarExpr); !ptr {
-				return nil, nil, fmt.Errorf("%s.%s is declared an object but is not a pointer", t.typeName, f)
+	}
+	for _, sp := range t.fieldSpecs {
+		var cands []string
+		for _, f := range fs {
+			if fc.syncKind(f.typ) != "" {
+				continue
 			}
-			kinds[f] = kObject
+			ts := types.ExprString(f.typ)
+			if sp.typ == "@localstruct" {
+				base, ptr := baseTypeName(f.typ)
+				other := false
+				for _, re := range res {
+					other = other || re.MatchString(ts)
+				}
+				if ptr && fc.structs[base] != nil && base != t.typeName && !other {
+					cands = append(cands, f.name)
+				}
+			} else if regexp.MustCompile(sp.typ).MatchString(ts) {
+				cands = append(cands, f.name)
+			}
+		}
+		name, ok := pick(cands, sp.canon, sp.nth)
+		if !ok {
+			return nil, nil, fmt.Errorf("%s has no field of type %s for %s", t.typeName, sp.typ, sp.canon)
+		}
+		if matched[name] {
+			return nil, nil, fmt.Errorf("%s.%s is matched by two field specifications", t.typeName, name)
+		}
+		matched[name] = true
+		t.fields[name] = sp.canon
+		ft := structField(st, name)
+		if sp.object != nil {
+			if _, ptr := ft.(*ast.StarExpr); !ptr {
+				return nil, nil, fmt.Errorf("%s.%s is declared an object but is not a pointer", t.typeName, name)
+			}
+			kinds[name] = kObject
+			t.objects[name] = sp.object
 			continue
 		}
 		switch x := ft.(type) {
 		case *ast.StarExpr, *ast.FuncType, *ast.ChanType, *ast.InterfaceType:
-			kinds[f] = kCell
+			kinds[name] = kCell
 		case *ast.ArrayType, *ast.MapType:
-			kinds[f] = kContainer
+			kinds[name] = kContainer
 		case *ast.Ident:
 			switch x.Name {
 			case "bool", "string", "int", "int8", "int16", "int32", "int64", "uint", "uint8", "uint16", "uint32", "uint64",
 				"uintptr", "float32", "float64", "byte", "rune", "error":
-				kinds[f] = kCell
+				kinds[name] = kCell
 			default:
-				return nil, nil, fmt.Errorf("%s.%s has a named type (%s) whose kind is not known", t.typeName, f, x.Name)
+				return nil, nil, fmt.Errorf("%s.%s has a named type (%s) whose kind is not known", t.typeName, name, x.Name)
 			}
 		default:
-			return nil, nil, fmt.Errorf("%s.%s has an unsupported type %T", t.typeName, f, ft)
+			return nil, nil, fmt.Errorf("%s.%s has an unsupported type %T", t.typeName, name, ft)
 		}
 	}
 	return lockRW, kinds, nil
@@ -237,7 +337,7 @@ func sameState(x, y []fheld) bool {
 func (a *fan) heldList() [][2]string {
 	var r [][2]string
 	for _, h := range a.st {
-		r = append(r, [2]string{h.name, h.mode})
+		r = append(r, [2]string{a.t.locks[h.name], h.mode})
 	}
 	return r
 }
@@ -247,7 +347,7 @@ func (a *fan) access(loc string, wr bool) {
 		a.cur = &fsection{held: a.heldList()}
 		a.secs = append(a.secs, a.cur)
 	}
-	x := access{loc, wr}
+	x := access{a.t.fields[loc], wr} // role name, not the Go field name
 	for _, y := range a.cur.accs {
 		if x == y {
 			return
@@ -610,6 +710,29 @@ func (a *fan) call(c *ast.CallExpr) fval {
 		if _, ok := a.objOf(f).(*types.Builtin); ok {
 			return a.builtin(f.Name, c)
 		}
+		if fd := a.sp.funcs[f.Name]; fd != nil {
+			if _, isFunc := a.objOf(f).(*types.Func); isFunc {
+				// a function of this file that is handed the receiver: analysed in place, like a private method
+				ri := -1
+				for i, arg := range c.Args {
+					if a.resolve(arg).k == vRecv {
+						if ri >= 0 {
+							a.fail(c.Pos(), "the receiver is passed twice to %s", f.Name)
+						}
+						ri = i
+					}
+				}
+				if ri >= 0 {
+					for i, arg := range c.Args {
+						if i != ri {
+							a.use(arg)
+						}
+					}
+					a.spliceFunc(fd, ri, c.Pos())
+					return fval{}
+				}
+			}
+		}
 		if o := a.objOf(f); o == nil {
 			switch f.Name { // type checking of the single file may not resolve everything
 			case "len", "cap", "append", "copy", "delete", "clear", "make", "new":
@@ -626,7 +749,13 @@ func (a *fan) call(c *ast.CallExpr) fval {
 					return fval{}
 				}
 			}
-			a.useArgs(c.Args)
+			for _, arg := range c.Args {
+				if fld, ok := a.containerArg(arg); ok && stdReaders[pkg][f.Sel.Name] {
+					a.access(fld, false) // slices.Clone(recv.F), maps.Clone(recv.F), ...: reads, the result is fresh
+				} else {
+					a.use(arg)
+				}
+			}
 			return fval{}
 		}
 		switch xv := a.resolve(f.X); xv.k {
@@ -773,19 +902,66 @@ func (a *fan) splice(fd *ast.FuncDecl, pos token.Pos) {
 			a.fail(pos, "method %s takes a parameter of the target type", fd.Name.Name)
 		}
 	}
+	var rid *ast.Ident
+	if len(recv.Names) == 1 && recv.Names[0].Name != "_" {
+		rid = recv.Names[0]
+	}
+	a.inline(fd, rid)
+}
+
+// inline analyses the body of fd in place, with rid (if any) denoting the receiver
+func (a *fan) inline(fd *ast.FuncDecl, rid *ast.Ident) {
 	saveFr, saveLoops, saveBreaks, saveLabels := a.fr, a.loops, a.breaks, a.labels
 	a.fr = &fframe{}
 	a.loops, a.breaks, a.labels = nil, nil, map[string][]fheld{}
 	a.active[fd] = true
+	a.sp.reached[fd] = true
 	a.depth++
-	if len(recv.Names) == 1 && recv.Names[0].Name != "_" {
-		a.bindRecv(recv.Names[0])
+	if rid != nil {
+		a.bindRecv(rid)
 	}
 	a.block(fd.Body.List)
 	a.endFrame(fd.Body.Rbrace)
 	a.depth--
 	delete(a.active, fd)
 	a.fr, a.loops, a.breaks, a.labels = saveFr, saveLoops, saveBreaks, saveLabels
+}
+
+// spliceFunc: a top-level function of the file is called with the receiver as its ri-th argument
+func (a *fan) spliceFunc(fd *ast.FuncDecl, ri int, pos token.Pos) {
+	if a.depth >= maxDepth {
+		a.fail(pos, "call depth limit %d exceeded", maxDepth)
+	}
+	if a.active[fd] {
+		a.fail(pos, "recursive call cycle through %s", fd.Name.Name)
+	}
+	if fd.Body == nil {
+		a.fail(pos, "function %s has no body", fd.Name.Name)
+	}
+	var rid *ast.Ident
+	k := 0
+	for _, prm := range fd.Type.Params.List {
+		names := prm.Names
+		if len(names) == 0 {
+			names = []*ast.Ident{nil}
+		}
+		for _, n := range names {
+			if k == ri {
+				base, ptr := baseTypeName(prm.Type)
+				if base != a.t.typeName || !ptr {
+					a.fail(pos, "function %s does not take the receiver as a pointer to %s", fd.Name.Name, a.t.typeName)
+				}
+				rid = n
+			} else if mentionsType(prm.Type, a.t.typeName) {
+				a.fail(pos, "function %s takes a second value of the target type", fd.Name.Name)
+			}
+			k++
+		}
+	}
+	if rid != nil && rid.Name == "_" {
+		rid = nil
+	}
+	a.inline(fd, rid)
 }
 
 func (a *fan) bindRecv(id *ast.Ident) {
@@ -1139,28 +1315,41 @@ func (a *fan) deferStmt(s *ast.DeferStmt) {
 	a.useVal(a.call(s.Call), s.Pos())
 }
 
+const maxSpawnDepth = 4
+
+// newSpawn registers the goroutine started at this go statement as an entry "<entry>.go<k>" of its own
+func (a *fan) newSpawn(site ast.Node, sp spawn) {
+	if a.sites[site] {
+		return // the same go statement again (loop, or the helper containing it inlined twice in this entry)
+	}
+	a.sites[site] = true
+	a.nspawn++
+	sp.name = fmt.Sprintf("%s.go%d", a.name, a.nspawn)
+	sp.depth = a.sdepth + 1
+	a.sp.list = append(a.sp.list, sp)
+}
+
 func (a *fan) goStmt(s *ast.GoStmt) {
 	fun := unparen(s.Call.Fun)
 	if lit, ok := fun.(*ast.FuncLit); ok {
 		a.useArgs(s.Call.Args)
-		if !a.sp.seen[lit] {
-			a.sp.seen[lit] = true
-			name := a.sp.names[lit]
-			if name == "" {
-				a.fail(s.Pos(), "cannot name the goroutine closure")
-			}
-			var rs []types.Object
-			for o := range a.recv {
-				rs = append(rs, o)
-			}
-			a.sp.list = append(a.sp.list, spawn{name: name, lit: lit, recv: rs})
+		var rs []types.Object
+		for o := range a.recv {
+			rs = append(rs, o)
 		}
+		a.newSpawn(s, spawn{lit: lit, recv: rs})
 		return
 	}
 	if sel, ok := fun.(*ast.SelectorExpr); ok && a.resolve(sel.X).k == vRecv {
 		sl := a.fc.info.Selections[sel]
-		if sl != nil && sl.Kind() == types.MethodVal && a.fc.methods[a.t.typeName][sel.Sel.Name] != nil {
-			a.useArgs(s.Call.Args) // evaluated by the caller; the method itself is an entry of the skeleton
+		fd := a.fc.methods[a.t.typeName][sel.Sel.Name]
+		if sl != nil && sl.Kind() == types.MethodVal && fd != nil {
+			a.useArgs(s.Call.Args) // evaluated by the caller
+			if !ast.IsExported(fd.Name.Name) {
+				// a private method run as a goroutine: an instance of its own, named after the spawning entry
+				a.sp.reached[fd] = true
+				a.newSpawn(s, spawn{fd: fd})
+			} // an exported method is an entry of the skeleton anyway
 			return
 		}
 		a.fail(s.Pos(), "go statement on something of the receiver that is not one of its methods")
@@ -1174,35 +1363,6 @@ func (a *fan) goStmt(s *ast.GoStmt) {
 // driver
 // ---------------------------------------------------------------------------------------------
 
-// closureNames assigns Go's closure names (Outer.func1, Outer.func1.1, ...) to the function literals of a declaration
-func closureNames(fd *ast.FuncDecl, names map[*ast.FuncLit]string) {
-	var walk func(n ast.Node, prefix string)
-	walk = func(n ast.Node, prefix string) {
-		i := 0
-		ast.Inspect(n, func(m ast.Node) bool {
-			if m == n {
-				return true
-			}
-			if lit, ok := m.(*ast.FuncLit); ok {
-				i++
-				var name string
-				if strings.Contains(prefix, ".func") {
-					name = fmt.Sprintf("%s.%d", prefix, i)
-				} else {
-					name = fmt.Sprintf("%s.func%d", prefix, i)
-				}
-				names[lit] = name
-				walk(lit.Body, name)
-				return false
-			}
-			return true
-		})
-	}
-	if fd.Body != nil {
-		walk(fd.Body, fd.Name.Name)
-	}
-}
-
 func (a *fan) finish() []*fsection {
 	var r []*fsection
 	for _, s := range a.secs {
@@ -1213,7 +1373,7 @@ func (a *fan) finish() []*fsection {
 	return r
 }
 
-func newFan(fc *fileCtx, t ftarget, lockRW map[string]bool, kinds map[string]fieldKind, sp *spawnSet) *fan {
+func newFan(fc *fileCtx, t ftarget, lockRW map[string]bool, kinds map[string]fieldKind, sp *spawnSet, name string) *fan {
 	ro := map[string]map[string]bool{}
 	for f, ms := range t.objects {
 		ro[f] = map[string]bool{}
@@ -1222,7 +1382,7 @@ func newFan(fc *fileCtx, t ftarget, lockRW map[string]bool, kinds map[string]fie
 		}
 	}
 	return &fan{fc: fc, t: t, lockRW: lockRW, kinds: kinds, ro: ro, recv: map[types.Object]bool{},
-		active: map[*ast.FuncDecl]bool{}, labels: map[string][]fheld{}, sp: sp}
+		active: map[*ast.FuncDecl]bool{}, labels: map[string][]fheld{}, sp: sp, name: name, sites: map[ast.Node]bool{}}
 }
 
 func catch(fc *fileCtx, e *fentry) {
@@ -1236,120 +1396,182 @@ func catch(fc *fileCtx, e *fentry) {
 	}
 }
 
-func analyseFieldEntry(fc *fileCtx, t ftarget, lockRW map[string]bool, kinds map[string]fieldKind, sp *spawnSet,
-	fd *ast.FuncDecl, recv *ast.Ident) (e fentry) {
-	e.name = fd.Name.Name
+// paramIdent: the identifier of the k-th parameter of fd (nil if unnamed)
+func paramIdent(fd *ast.FuncDecl, k int) *ast.Ident {
+	i := 0
+	for _, prm := range fd.Type.Params.List {
+		names := prm.Names
+		if len(names) == 0 {
+			names = []*ast.Ident{nil}
+		}
+		for _, n := range names {
+			if i == k {
+				return n
+			}
+			i++
+		}
+	}
+	return nil
+}
+
+// analyseBody: one entry of the skeleton = the body of a method/function (rid denotes the receiver) or of a closure
+// (the objects recv denote the receiver), started with no lock held
+func analyseBody(fc *fileCtx, t ftarget, lockRW map[string]bool, kinds map[string]fieldKind, sp *spawnSet,
+	name string, fd *ast.FuncDecl, rid *ast.Ident, lit *ast.FuncLit, recv []types.Object, sdepth int) (e fentry) {
+	e.name = name
 	defer catch(fc, &e)
-	a := newFan(fc, t, lockRW, kinds, sp)
-	a.active[fd] = true
+	a := newFan(fc, t, lockRW, kinds, sp, name)
+	a.sdepth = sdepth
 	a.fr = &fframe{}
+	var body *ast.BlockStmt
+	if fd != nil {
+		a.active[fd] = true
+		body = fd.Body
+		if body == nil {
+			a.fail(fd.Pos(), "no body")
+		}
+		if rid != nil && rid.Name != "_" {
+			a.bindRecv(rid)
+		}
+	} else {
+		body = lit.Body
+		for _, o := range recv {
+			a.recv[o] = true
+		}
+	}
+	if sdepth > maxSpawnDepth {
+		a.fail(body.Pos(), "goroutines nested more than %d deep", maxSpawnDepth)
+	}
+	a.block(body.List)
+	a.endFrame(body.Rbrace)
+	if len(a.st) != 0 {
+		a.fail(body.Rbrace, "ends with a lock held")
+	}
+	e.secs = a.finish()
+	return e
+}
+
+// ctorSpawns: goroutines that a function WITHOUT the target as receiver/parameter (a constructor) starts on a value
+// of the target type.  The constructor itself runs before the object is shared and is not analysed; what it starts
+// with `go` outlives it: "<Ctor>.go<i>", i = position of the go statement in the function.
+func ctorSpawns(fc *fileCtx, t ftarget, sp *spawnSet, fd *ast.FuncDecl) (spawns []spawn, bad []fentry) {
 	if fd.Body == nil {
-		a.fail(fd.Pos(), "no body")
+		return
 	}
-	if recv != nil && recv.Name != "_" {
-		a.bindRecv(recv)
-	}
-	a.block(fd.Body.List)
-	a.endFrame(fd.Body.Rbrace)
-	if len(a.st) != 0 {
-		a.fail(fd.Body.Rbrace, "function ends with a lock held")
-	}
-	e.secs = a.finish()
-	return e
-}
-
-func analyseSpawn(fc *fileCtx, t ftarget, lockRW map[string]bool, kinds map[string]fieldKind, sp *spawnSet, s spawn) (e fentry) {
-	e.name = s.name
-	defer catch(fc, &e)
-	a := newFan(fc, t, lockRW, kinds, sp)
-	for _, o := range s.recv {
-		a.recv[o] = true
-	}
-	a.fr = &fframe{}
-	a.block(s.lit.Body.List)
-	a.endFrame(s.lit.Body.Rbrace)
-	if len(a.st) != 0 {
-		a.fail(s.lit.Body.Rbrace, "goroutine ends with a lock held")
-	}
-	e.secs = a.finish()
-	return e
-}
-
-func analyseFieldTarget(fc *fileCtx, t ftarget) []fentry {
-	lockRW, kinds, verr := fc.validateFields(t)
-	sp := &spawnSet{seen: map[*ast.FuncLit]bool{}, names: map[*ast.FuncLit]string{}}
-	var out []fentry
-	for _, d := range fc.file.Decls {
-		fd, ok := d.(*ast.FuncDecl)
+	i := 0
+	ast.Inspect(fd.Body, func(n ast.Node) bool {
+		g, ok := n.(*ast.GoStmt)
 		if !ok {
-			continue
+			return true
 		}
-		closureNames(fd, sp.names)
-		var recv *ast.Ident
-		bad := ""
-		params := fd.Type.Params.List
-		if fd.Recv != nil && len(fd.Recv.List) == 1 {
-			base, ptr := baseTypeName(fd.Recv.List[0].Type)
-			if base == t.typeName {
-				if !ptr {
-					bad = "value receiver (copies the struct)"
+		i++
+		name := fmt.Sprintf("%s.go%d", fd.Name.Name, i)
+		var objs []types.Object
+		seen := map[types.Object]bool{}
+		ast.Inspect(g, func(m ast.Node) bool {
+			if id, ok := m.(*ast.Ident); ok && isTargetValue(fc, id, t.typeName) {
+				o := fc.info.Uses[id]
+				if o == nil {
+					o = fc.info.Defs[id]
 				}
-				if len(fd.Recv.List[0].Names) == 1 {
-					recv = fd.Recv.List[0].Names[0]
-				}
-			} else {
-				mentions := false
-				for _, p := range params {
-					mentions = mentions || mentionsType(p.Type, t.typeName)
-				}
-				if !mentions {
-					continue
-				}
-				bad = "method of another type that takes the target type as a parameter"
-			}
-		} else {
-			first, mentions := false, false
-			for i, p := range params {
-				if mentionsType(p.Type, t.typeName) {
-					mentions = true
-					base, ptr := baseTypeName(p.Type)
-					if i == 0 && len(p.Names) == 1 && base == t.typeName && ptr {
-						first = true
-						recv = p.Names[0]
-					}
+				if !seen[o] {
+					seen[o] = true
+					objs = append(objs, o)
 				}
 			}
-			if !mentions {
-				continue // constructors and unrelated functions
-			}
-			if !first {
-				// a function that RETURNS a closure over the target type (an option) or takes it elsewhere
-				bad = "takes the target type, but not as a single pointer in first position"
-			}
-			if first {
-				params = params[1:]
-			}
+			return true
+		})
+		if len(objs) == 0 {
+			return false // a goroutine that does not know the object
 		}
-		if bad == "" {
-			for _, p := range params {
-				if mentionsType(p.Type, t.typeName) {
-					bad = "takes a second value of the target type"
+		fun := unparen(g.Call.Fun)
+		argsClean := true
+		for _, arg := range g.Call.Args {
+			ast.Inspect(arg, func(m ast.Node) bool {
+				if id, ok := m.(*ast.Ident); ok && isTargetValue(fc, id, t.typeName) {
+					argsClean = false
+				}
+				return true
+			})
+		}
+		switch f := fun.(type) {
+		case *ast.FuncLit:
+			if argsClean {
+				spawns = append(spawns, spawn{name: name, lit: f, recv: objs, depth: 1})
+				return false
+			}
+		case *ast.SelectorExpr:
+			if id, ok := unparen(f.X).(*ast.Ident); ok && isTargetValue(fc, id, t.typeName) && argsClean {
+				if m := fc.methods[t.typeName][f.Sel.Name]; m != nil {
+					if !ast.IsExported(m.Name.Name) {
+						sp.reached[m] = true
+						spawns = append(spawns, spawn{name: name, fd: m, depth: 1})
+					} // an exported method is an entry anyway
+					return false
 				}
 			}
 		}
-		switch {
-		case verr != nil:
-			out = append(out, fentry{name: fd.Name.Name, unknown: true, reason: verr.Error()})
-		case bad != "":
-			out = append(out, fentry{name: fd.Name.Name, unknown: true,
-				reason: fmt.Sprintf("%s: %s", fc.fset.Position(fd.Pos()), bad)})
-		default:
-			out = append(out, analyseFieldEntry(fc, t, lockRW, kinds, sp, fd, recv))
+		bad = append(bad, fentry{name: name, unknown: true,
+			reason: fmt.Sprintf("%s: goroutine started on a %s in a form that is not understood", fc.fset.Position(g.Pos()), t.typeName)})
+		return false
+	})
+	return
+}
+
+// The skeleton has one entry per EXPORTED method/function of the target (public names are API and stable).
+// Unexported methods, and functions of the file that are handed the receiver, are analysed IN PLACE where they are
+// called, so extracting, merging or renaming private helpers does not change the skeleton.  A goroutine started by an
+// entry is an entry "<entry>.go<k>" of its own (k-th go statement met while analysing that entry); goroutines a
+// constructor starts are "<Ctor>.go<i>".  An unexported method that nothing reaches still gets an entry of its own
+// (it may be called from another file of the package).
+func analyseFieldTarget(fc *fileCtx, t ftarget) []fentry {
+	lockRW, kinds, verr := fc.resolve(&t)
+	sp := &spawnSet{reached: map[*ast.FuncDecl]bool{}, funcs: map[string]*ast.FuncDecl{}}
+	cands, others := discover(fc, t.typeName)
+	for _, d := range fc.file.Decls {
+		if fd, ok := d.(*ast.FuncDecl); ok && fd.Recv == nil {
+			sp.funcs[fd.Name.Name] = fd
 		}
 	}
-	for i := 0; i < len(sp.list); i++ { // goroutine closures (may start further ones)
-		out = append(out, analyseSpawn(fc, t, lockRW, kinds, sp, sp.list[i]))
+	var out []fentry
+	drain := func() { // goroutines started by what was analysed so far (they may start further ones)
+		for len(sp.list) > 0 {
+			s := sp.list[0]
+			sp.list = sp.list[1:]
+			var rid *ast.Ident
+			if s.fd != nil && s.fd.Recv != nil && len(s.fd.Recv.List[0].Names) == 1 {
+				rid = s.fd.Recv.List[0].Names[0]
+			}
+			out = append(out, analyseBody(fc, t, lockRW, kinds, sp, s.name, s.fd, rid, s.lit, s.recv, s.depth))
+		}
 	}
+	pass := func(exported bool) {
+		for _, c := range cands {
+			if ast.IsExported(c.fd.Name.Name) != exported || (!exported && sp.reached[c.fd]) {
+				continue
+			}
+			switch {
+			case verr != nil:
+				out = append(out, fentry{name: c.fd.Name.Name, unknown: true, reason: verr.Error()})
+			case c.bad != "":
+				out = append(out, fentry{name: c.fd.Name.Name, unknown: true,
+					reason: fmt.Sprintf("%s: %s", fc.fset.Position(c.fd.Pos()), c.bad)})
+			default:
+				out = append(out, analyseBody(fc, t, lockRW, kinds, sp, c.fd.Name.Name, c.fd, c.recv, nil, nil, 0))
+				drain()
+			}
+		}
+	}
+	pass(true)
+	if verr == nil {
+		for _, fd := range others {
+			spawns, bad := ctorSpawns(fc, t, sp, fd)
+			out = append(out, bad...)
+			sp.list = append(sp.list, spawns...)
+			drain()
+		}
+	}
+	pass(false)
 	if verr != nil && len(out) == 0 {
 		out = append(out, fentry{name: "<" + t.typeName + ">", unknown: true, reason: verr.Error()})
 	}
